@@ -6,7 +6,7 @@ use crate::rt::{attempt, decide, Ctx, Out};
 use crate::scen::*;
 use crate::schemes::{below, range, Scheme};
 use ark_crypto_primitives::sponge::CryptographicSponge;
-use ark_ff::{One, UniformRand};
+use ark_ff::{One, UniformRand, Zero};
 use ark_poly::Polynomial;
 use ark_poly_commit::{BatchLCProof, Evaluations, LCTerm, LinearCombination, PolynomialCommitment, QuerySet};
 use rand_chacha::ChaCha20Rng;
@@ -174,6 +174,46 @@ fn case<S: Scheme>(ctx: &mut Ctx, rng: &mut ChaCha20Rng) {
     ctx.count("sponge-events", (sp_p.log.len() + sp_v.log.len()) as u64);
     ctx.held("lock-step-accept", desc.clone());
     ctx.held("lock-step-state", desc.clone());
+    // ---- whatever the prover answers, the verifier follows: combinations of shapes a scheme may or may not admit
+    // (one degree-bounded polynomial plus a constant; a bounded polynomial with coefficient 2) are proved at the end
+    // of the history - if the prover returns a proof for the true values, the verifier must accept it in lock-step
+    if let Some(i) = (0..tx.polys.len()).find(|&i| tx.specs[i].bound.is_some()) {
+        let l = tx.polys[i].label().clone();
+        let mut lc = LinearCombination::empty("edge");
+        let two = FOf::<S>::one() + FOf::<S>::one();
+        let shape = if rng.next_u32() % 2 == 0 {
+            lc.push((FOf::<S>::one(), LCTerm::PolyLabel(l)));
+            lc.push((two, LCTerm::One));
+            "bounded + constant"
+        } else {
+            lc.push((two, LCTerm::PolyLabel(l)));
+            "2 * bounded"
+        };
+        let z = S::gen_point(&tx.w.cfg, rng);
+        let mut qs = QuerySet::new();
+        qs.insert(("edge".to_string(), ("z".to_string(), z.clone())));
+        let mut v = FOf::<S>::zero();
+        for (cf, t) in lc.iter() {
+            match t {
+                LCTerm::One => v += *cf,
+                LCTerm::PolyLabel(pl) => v += *cf * tx.polys[tx.idx_of(pl)].evaluate(&z),
+            }
+        }
+        let mut evals = Evaluations::new();
+        evals.insert(("edge".to_string(), z.clone()), v);
+        let op = Op::Lc { lcs: vec![lc], qs, evals };
+        let (mut sp, mut sv) = (sp_p.clone(), sp_v.clone());
+        match prove::<S>(&tx, &op, &mut sp, rng.next_u64()) {
+            Err(_) => ctx.count(&format!("edge-combination-refused-by-prover:{}", shape), 1),
+            Ok(pf) => {
+                let o = verify::<S>(&tx, &op, &pf, &mut sv);
+                let same: bool = fingerprint::<FOf<S>, _>(&sp) == fingerprint::<FOf<S>, _>(&sv);
+                let mut d = desc.clone();
+                d["edge_combination"] = json!(shape);
+                ctx.check(o == Out::Accept && same, "prover-answer-accepted-in-lock-step", "check_combinations", d, || json!({"outcome": o.json(), "states_equal": same}));
+            }
+        }
+    }
     // ---- negative: a proof is not accepted under a different transcript state
     // the transcript binds a proof only through a non-trivial witness: for plain openings some polynomial must be
     // non-constant, for combinations some COMBINED polynomial must be (0*p + c, or p - p, is constant)
